@@ -139,7 +139,7 @@ def run(ctx):
     ctx.mc("mc/MC_Pipeline", "mc/MC_Pipeline_quick.cfg" if quick else "mc/MC_Pipeline.cfg", label="MC_Pipeline", timeout=3000)
     tasks = []
     for i in range(14 if quick else 120):
-        tasks.append((rng.randrange(1 << 30), "toy" if i % 2 == 0 else "gendb", 8 if quick else 14))
+        tasks.append((rng.randrange(1 << 30), "toy" if i % 2 == 0 else "gendb", 6 if quick else 14))
     runs = [r for out in par.pmap(_run_task, tasks) for r in out]
     rows, meta, skipped = [], {}, 0
     for r in runs:
